@@ -92,6 +92,7 @@ pub fn run(args: &[String]) {
     let start: usize = args.get(1).map(|s| s.parse().unwrap()).unwrap_or(0);
     use std::io::Write as _;
     for case in cases.iter().skip(start) {
+        crate::wd::case_begin();
         run_case(case);
         std::io::stdout().flush().unwrap();
     }
